@@ -829,7 +829,10 @@ class NpProxy:
         object.__setattr__(self, "used", set())
 
     def __getattr__(self, name):
-        return getattr(self._np, name)
+        attr = getattr(self._np, name)
+        if callable(attr) and not isinstance(attr, type) and not name.startswith("_"):
+            return _GenericNp(self, name, attr)
+        return attr
 
     @staticmethod
     def _anysym(x):
@@ -981,6 +984,66 @@ class NpProxy:
     @property
     def linalg(self):
         return _LinalgProxy(self)
+
+
+class _GenericNp:
+    """A numpy function the proxy has no exact model for. Concrete arguments: the real function, untouched. A symbolic argument:
+    the REAL numpy function on object arrays (symbolic scalars boxed as 0-d object arrays, dtype requests widened to object).
+    numpy's object loops call the elements' own Python operators and methods (`* + abs conjugate sqrt exp`), so structural and
+    elementwise functions (broadcast_to, shape, reshape, concatenate, where, multiply, square, dot, vdot, ...) keep their
+    meaning without a model of ours. A function numpy cannot run on objects, or a result that lost its symbols (NaN leak),
+    is Inconclusive - never a verdict."""
+
+    def __init__(self, px, name, fn):
+        self._px, self._name, self._fn = px, name, fn
+
+    def __getattr__(self, a):
+        return getattr(self._fn, a)
+
+    def __repr__(self):
+        return f"<proxied numpy.{self._name}>"
+
+    def __call__(self, *a, **kw):
+        px = self._px
+        if not any(NpProxy._anysym(v) for v in list(a) + list(kw.values())):
+            return self._fn(*a, **kw)
+        np = px._np
+        px.used.add("generic:" + self._name)
+
+        def box(v):
+            if isinstance(v, SB):
+                raise Inconclusive(f"numpy.{self._name} applied to a symbolic bool")
+            if is_sym(v):
+                arr = np.empty((), dtype=object)
+                arr[()] = v
+                return arr
+            if isinstance(v, (list, tuple)) and NpProxy._anysym(v):
+                return px._obj(v)
+            return v
+
+        a2 = [box(v) for v in a]
+        kw2 = {k: box(v) for k, v in kw.items()}
+        if kw2.get("dtype") is not None and kw2["dtype"] is not object:
+            kw2["dtype"] = object
+        try:
+            r = self._fn(*a2, **kw2)
+        except Exception as e:
+            raise Inconclusive(f"numpy.{self._name} is not executable on symbolic values ({type(e).__name__}: {str(e)[:80]})")
+        return self._unbox(r)
+
+    def _unbox(self, r):
+        np = self._px._np
+        if isinstance(r, tuple):
+            return tuple(self._unbox(x) for x in r)
+        if isinstance(r, np.ndarray):
+            if r.dtype == object:
+                return r.item() if r.ndim == 0 else r
+            if r.dtype.kind in "fc" and r.size and bool(np.isnan(r).any()):
+                raise Inconclusive(f"numpy.{self._name} concretised a symbolic value")
+            return r
+        if isinstance(r, (float, complex, np.floating, np.complexfloating)) and not is_sym(r) and r != r:
+            raise Inconclusive(f"numpy.{self._name} concretised a symbolic value")
+        return r
 
 
 class _LinalgProxy:
